@@ -23,7 +23,9 @@ MANIFEST = {
     "technique": "Lean 4 proof (induction/invariants over an executable model) + differential correspondence with the real code",
 }
 
-REQUIRED = ["KV.C01.constants_ok"]
+REQUIRED = ["KV.C01.constants_ok", "KV.C01.table_represents", "KV.C01.fullScore_prob", "KV.C01.fullScore_prob_table",
+            "KV.C01.stateFor_null", "KV.C01.stateFor_begin", "KV.C01.stateFor_step", "KV.C01.scoreSeq_spec",
+            "KV.C01.forgot_prob"]
 
 
 def case_fails(hexe, dexe, workdir, want):
